@@ -487,6 +487,85 @@ fn one_run(case: &Value, wall_sleep_us: u64) -> (Vec<String>, String) {
     (lines, result)
 }
 
+/// turmoil-net fixture scenario (mode "netfix"): two servers and a client under a
+/// per-packet latency rule; the trace is the program log plus netstat of every host.
+fn netfix_run(case: &Value) -> (Vec<String>, String) {
+    use turmoil_net::fixture::ClientServer;
+    use turmoil_net::shim::tokio::net as tn;
+    use turmoil_net::{Packet, Rule, Verdict};
+    struct Jitter(u64, u64);
+    impl Rule for Jitter {
+        fn on_packet(&mut self, _p: &Packet) -> Verdict {
+            self.0 = self.0.wrapping_mul(6364136223846793005).wrapping_add(1442695040888963407);
+            let r = (self.0 >> 33) % 100;
+            if r < self.1 { Verdict::Drop } else { Verdict::Deliver(Duration::from_millis(r % 7)) }
+        }
+    }
+    let p = &case["netfix"];
+    let rounds = p["rounds"].as_u64().unwrap_or(4);
+    let salt = p["salt"].as_u64().unwrap_or(1);
+    let drop_pct = p["drop_pct"].as_u64().unwrap_or(0);
+    let log: Arc<Mutex<Vec<String>>> = Arc::new(Mutex::new(Vec::new()));
+    let (l1, l2, l3) = (log.clone(), log.clone(), log.clone());
+    let cfg = turmoil_net::KernelConfig::default();
+    ClientServer::with_config(cfg)
+        .server("s1", async move {
+            let lis = tn::TcpListener::bind("0.0.0.0:9000").await.unwrap();
+            loop {
+                let (mut s, peer) = lis.accept().await.unwrap();
+                l1.lock().unwrap().push(format!("s1 accept {}", peer));
+                let l = l1.clone();
+                tokio::task::spawn_local(async move {
+                    let mut buf = [0u8; 32];
+                    loop {
+                        match s.read(&mut buf).await {
+                            Ok(0) | Err(_) => break,
+                            Ok(n) => {
+                                l.lock().unwrap().push(format!("s1 read {:?}", &buf[..n]));
+                                if s.write_all(&buf[..n]).await.is_err() { break; }
+                            }
+                        }
+                    }
+                });
+            }
+        })
+        .server("s2", async move {
+            let u = tn::UdpSocket::bind("0.0.0.0:9001").await.unwrap();
+            let mut buf = [0u8; 32];
+            loop {
+                let (n, from) = u.recv_from(&mut buf).await.unwrap();
+                l2.lock().unwrap().push(format!("s2 got {:?} from {}", &buf[..n], from));
+                let _ = u.send_to(&buf[..n], from).await;
+            }
+        })
+        .run("client", async move {
+            let _g = turmoil_net::rule(Jitter(salt, drop_pct));
+            let u = tn::UdpSocket::bind("0.0.0.0:0").await.unwrap();
+            let mut buf = [0u8; 32];
+            for r in 0..rounds {
+                let c = tokio::time::timeout(Duration::from_millis(200), tn::TcpStream::connect("s1:9000")).await;
+                match c {
+                    Ok(Ok(mut s)) => {
+                        let data = [r as u8, 1, 2, 3, (salt % 251) as u8];
+                        let w = s.write_all(&data).await.map_err(|e| e.kind());
+                        let rd = tokio::time::timeout(Duration::from_millis(300), s.read(&mut buf)).await;
+                        l3.lock().unwrap().push(format!("c tcp {} local {:?} w {:?} r {:?}", r, s.local_addr(), w,
+                            rd.map(|x| x.map(|n| buf[..n].to_vec()).map_err(|e| e.kind())).map_err(|_| "timeout")));
+                    }
+                    other => l3.lock().unwrap().push(format!("c tcp {} connect {:?}", r, other.map(|x| x.map(|_| ()).map_err(|e| e.kind())).map_err(|_| "timeout"))),
+                }
+                let _ = u.send_to(&[r as u8, 9], "s2:9001").await;
+                let rd = tokio::time::timeout(Duration::from_millis(50), u.recv_from(&mut buf)).await;
+                l3.lock().unwrap().push(format!("c udp {} {:?}", r, rd.map(|x| x.map(|(n, f)| (buf[..n].to_vec(), f)).map_err(|e| e.kind())).map_err(|_| "timeout")));
+            }
+            for h in ["s1", "s2", "client"] {
+                l3.lock().unwrap().push(format!("netstat {}:\n{}", h, turmoil_net::netstat(h)));
+            }
+        });
+    let lines = log.lock().unwrap().clone();
+    (lines, "ok".to_string())
+}
+
 fn fnv(lines: &[String]) -> u64 {
     let mut h: u64 = 0xcbf29ce484222325;
     for l in lines {
@@ -507,7 +586,16 @@ fn traced_run(case: &Value, wall_sleep_us: u64) -> (Vec<String>, Vec<String>, St
         .without_time()
         .with_writer(move || w.clone())
         .finish();
-    let (lines, result) = tracing::subscriber::with_default(sub, || one_run(case, wall_sleep_us));
+    let (lines, result) = tracing::subscriber::with_default(sub, || {
+        if case.get("netfix").is_some() {
+            if wall_sleep_us > 0 {
+                std::thread::sleep(Duration::from_millis(20));
+            }
+            netfix_run(case)
+        } else {
+            one_run(case, wall_sleep_us)
+        }
+    });
     let trace = String::from_utf8_lossy(&buf.lock().unwrap()).to_string();
     let tl: Vec<String> = trace.lines().filter(|l| l.contains("turmoil")).map(|s| s.to_string()).collect();
     (lines, tl, result)
